@@ -225,6 +225,18 @@ func (r *runner) fixtures() {
 			continue
 		}
 		stats["block:hash-verified:"+verStr]++
+		// the extracted verify_block_hash (receipts pairing, transaction hashes, block hash; hash terms evaluated with
+		// juno's primitives) must say the same as core.VerifyBlockHash, on the fixture and on each tampering below
+		modelled := !pre07 && representableVBH(b)
+		if modelled {
+			if !modelVBH(r.or, net, b) {
+				r.c.Violation("accept-verdict:reject-vs-accept:fixture:valid", fmt.Sprintf("%s (%s): the extracted verify_block_hash rejects a block core.VerifyBlockHash accepts", id, verStr), rc, true)
+			} else {
+				stats["block:extracted-verify_block_hash-accepts:"+verStr]++
+			}
+		} else {
+			stats["block:extracted-verdict-not-applicable(pre-0.7 format)"]++
+		}
 		// 4. tamper sweep against the hash verification part of SanityCheckNewHeight
 		var names []string
 		forEachTamper(b, func(n string, _ func()) {
@@ -245,7 +257,7 @@ func (r *runner) fixtures() {
 		limit := 12
 		if r.c.Thorough() {
 			limit = len(names)
-		} else if time.Since(start) > 14*time.Second {
+		} else if time.Since(start) > 11*time.Second {
 			limit = 0 // quick tier: the sweep over fixtures has a time budget; the correspondence part always runs
 			stats["tamper:sweep-skipped(time budget)"]++
 		}
@@ -282,6 +294,10 @@ func (r *runner) fixtures() {
 					done = true
 				}
 			})
+			mv, haveMV := false, false
+			if modelled && representableVBH(t) {
+				mv, haveMV = modelVBH(r.or, net, t), true
+			}
 			var verr error
 			func() {
 				defer func() {
@@ -294,6 +310,14 @@ func (r *runner) fixtures() {
 			}()
 			r.c.Count("fixture-tamper/"+id+"/"+name, true)
 			stats["tamper:probes"]++
+			if haveMV && !(verr != nil && strings.HasPrefix(verr.Error(), "panic:")) {
+				stats["tamper:extracted-verdict-compared"]++
+				if mv != (verr == nil) {
+					r.c.Violation("accept-verdict:"+vname(mv)+"-vs-"+vname(verr == nil)+":fixture:"+tamperKind(name),
+						fmt.Sprintf("%s (%s) tampering %s: extracted verify_block_hash says %s, core.VerifyBlockHash says %s (%v)", id, verStr, name, vname(mv), vname(verr == nil), verr),
+						replayCase{Kind: "fixture", Detail: id, Tamper: name}, !(verr == nil && !mv))
+				}
+			}
 			if false {
 			} else if verr != nil && strings.HasPrefix(verr.Error(), "panic:") {
 				r.c.Violation("fixture:tamper-panic:"+tamperKind(name), fmt.Sprintf("%s (%s) tampering %s: %v", id, verStr, name, verr),
